@@ -184,6 +184,24 @@ static std::string handle(const std::vector<std::string>& a) {
     char* exact = new char[n ? n : 1];
     memcpy(exact, input.data(), n);
     RUN("ptrsize", (const char*)exact, n)
+    if (filtered) {
+      // the filter given as a (non-const) JsonDocument that was built through the API, has spare capacity and lives on
+      // an allocator that MOVES blocks when they shrink: with ARDUINOJSON_AUTO_SHRINK the Filter constructor shrinks it
+      SpyAllocator moving;
+      {
+        JsonDocument fdoc2(&moving);
+        fdoc2.set(fv);
+        fdoc2["\x01spare"][0] = 1; fdoc2["\x01spare"][1] = 2;
+        fdoc2.remove("\x01spare");
+        if (!fv.is<JsonObjectConst>()) fdoc2.set(fv);
+        JsonDocument doc;
+        doc["stale"] = "x";
+        DeserializationError err = json ? deserializeJson(doc, (const char*)exact, n, DeserializationOption::Filter(fdoc2), NL)
+                                        : deserializeMsgPack(doc, (const char*)exact, n, DeserializationOption::Filter(fdoc2), NL);
+        report("filterDocument", err, doc);
+      }
+      if (moving.misuse || !moving.live.empty()) res += "filterDocument=ALLOCATOR-MISUSE ";
+    }
     RUN("ucharptrsize", (const unsigned char*)exact, n)
     RUN("string", input)
     { std::string_view sv(exact, n); RUN("string_view", sv) }
